@@ -178,7 +178,9 @@ func (p *Program) modSetOf(cs *ContractSet, fn *ssa.Function) *ModSet {
 	}
 	ms := newModSet()
 	p.modsets[fn] = ms // recursion: partial set; fixpoint by the outer reachable-set construction
-	if !inModule(fn) {
+	if ct, ok := cs.ByFunc[fn.String()]; ok && ct.Inline && !inModule(fn) && len(fn.Blocks) > 0 {
+		// inlined external leaf: analyse its body
+	} else if !inModule(fn) {
 		if ct, ok := cs.ByFunc[fn.String()]; ok && (ct.Pure || len(ct.Modifies) > 0) {
 			if !ct.Pure {
 				p.modifiesComps(cs, ct, ms, fn.Signature)
@@ -394,6 +396,10 @@ func (p *Program) staticEffect(cs *ContractSet, ms *ModSet, f *ssa.Function, c *
 		}
 	}
 	if !inModule(f) {
+		if ct, ok := cs.ByFunc[f.String()]; ok && ct.Inline && len(f.Blocks) > 0 {
+			visit(f)
+			return
+		}
 		if len(f.Blocks) == 0 || !pureByPackage(f) {
 			ms.setAll("external call " + f.String())
 		}
